@@ -294,6 +294,7 @@ fn scenario(conn: Conn, layout: Layout, per_producer: usize, nkeys: i64, bound: 
         max_execs: 0,
         shards: 1,
         nontrivial: true,
+        unbounded: false,
     }
 }
 
